@@ -276,6 +276,97 @@ def make_pixel_problem(rng, k):
             'maxiter': maxiter, 'outliers': [], 'id': k, 'forms': forms}
 
 
+def make_hole_problem(rng, k):
+    """Sampling holes relative to the breakpoint spacing: 1 .. nord-1 consecutive breakpoint segments holding NO x value
+    (or only non-positively weighted ones) between occupied segments.  Every basis function keeps data on its support
+    (hole narrower than nord segments, dense neighbours), so the least-squares problem stays well posed (status 0).
+    Breakpoints by nbkpts / bkspace / an explicit bkpt array / a placed array."""
+    nord = rng.choice([2, 3, 4, 4])
+    nseg = rng.randint(6, 14)
+    wd = rng.choice([0.5, 1.0, 2.0])
+    x0 = rng.choice([0.0, -3.0, 50.0, 1000.0])
+    empty, ghost = set(), set()                            # ghost: occupied by non-positive weights only
+    s0 = 2
+    for _ in range(rng.choice([1, 1, 2])):
+        e = rng.randint(1, nord - 1)
+        lo = s0
+        hi = nseg - 2 - e
+        if lo > hi:
+            break
+        a = rng.randint(lo, hi)
+        segs = set(range(a, a + e))
+        if rng.random() < 0.25:
+            ghost |= segs
+        else:
+            empty |= segs
+        s0 = a + e + nord
+    if not (empty | ghost):
+        return make_hole_problem(rng, k)
+    xs, wz, dense = [], [], []
+    m = 0.05 * wd
+    for i in range(nseg):
+        a, b = i * wd, (i + 1) * wd
+        if i in empty:
+            continue
+        if i in ghost:
+            pts = sorted(rng.uniform(a + m, b - m) for _ in range(rng.randint(1, 2)))
+            z = [True] * len(pts)
+        else:
+            near = bool({i - 1, i + 1} & (empty | ghost))
+            c = rng.randint(7, 14) if (near or rng.random() < 0.8) else rng.randint(2, 4)
+            pts = sorted(rng.uniform(a + m, b - m) for _ in range(c))
+            z = [False] * c
+            if i == 0:
+                pts[0] = a
+            if i == nseg - 1:
+                pts[-1] = b
+        xs += pts
+        wz += z
+        dense += [len(pts) >= 7] * len(pts)
+    xs = x0 + np.array(xs)
+    n = xs.size
+    if len(set(xs.tolist())) != n:
+        return make_hole_problem(rng, k)
+    wz, dense = np.array(wz), np.array(dense)
+    u = (xs - xs[0]) / (xs[-1] - xs[0])
+    amp = rng.choice([1.0, 20.0])
+    sig = amp * rng.choice([0.01, 0.03, 0.05])
+    if rng.random() < 0.5:
+        cf = [rng.uniform(-3, 3) for _ in range(nord)]
+        f = amp * sum(cf[d] * u ** d for d in range(nord))
+    else:
+        f = amp * (np.sin(rng.uniform(1, 0.6 * nseg) * u + rng.uniform(0, 6)) + rng.uniform(-1, 1) * u)
+    sigma = sig * np.array([rng.choice([0.5, 1.0, 1.0, 2.0]) for _ in range(n)])
+    y = f + np.array([rng.gauss(0, 1) for _ in range(n)]) * sigma
+    w = 1.0 / sigma ** 2
+    w[wz] = [rng.choice([0.0, -1.0]) for _ in range(int(wz.sum()))]
+    ok = dense & ~wz
+    ok[[0, 1, n - 2, n - 1]] = False
+    for _ in range(rng.choice([0, 1, 2])):                  # something for the rejection to find
+        j = rng.randrange(n)
+        if ok[j]:
+            y[j] += rng.choice([-1, 1]) * rng.uniform(15, 30) * sigma[j]
+    for _ in range(rng.choice([0, 0, 1, 2])):               # scattered non-positive weights in dense places
+        j = rng.randrange(n)
+        if ok[j] and w[j - 1] > 0 and w[j + 1] > 0:
+            w[j] = rng.choice([0.0, -1.0])
+    grid = x0 + wd * np.arange(nseg + 1)
+    opt = rng.choice(['nbkpts', 'bkspace', 'bkpt', 'placed'])
+    if opt == 'nbkpts':
+        kw = {'nbkpts': nseg + 1}
+    elif opt == 'bkspace':
+        kw = {'bkspace': float(wd * 0.9995)}
+    elif opt == 'bkpt':
+        kw = {'bkpt': grid.tolist()}
+    else:
+        kw = {'placed': ([float(grid[0] - wd)] if rng.random() < 0.5 else []) + grid.tolist() + [float(grid[-1] + 0.5 * wd)]}
+    lower, upper = rng.choice([(5, 5), (5, 5), (3, 7), (7, 3), (4, 6)])
+    maxiter = rng.choice([0, 0, 1, 2, 10])
+    order = np.lexsort((y, xs))
+    return {'X': xs[order], 'Y': y[order], 'W': w[order], 'nord': nord, 'kw': kw, 'lower': lower, 'upper': upper,
+            'maxiter': maxiter, 'outliers': [], 'id': k, 'holes': len(empty), 'ghosts': len(ghost)}
+
+
 def make_sparse_problem(rng, k):
     """Sparse / irregular sampling: breakpoint intervals holding exactly 1, 2 or 3 points (an isolated point among
     them) next to dense ones.  Every fit stays determined: sparse intervals are never neighbours, the end intervals
@@ -462,8 +553,9 @@ def run_real(bsp, P, perm, form='float64'):
     res = {'events': rec.events, 'outmask': None, 'sset': None, 'exc': None, 'tb': '', 'form': form}
     with rec:
         try:
+            kw = {a: (np.array(v, dtype=float) if isinstance(v, list) else v) for a, v in P['kw'].items()}
             sset, outmask = bsp.iterfit(x, y, invvar=w, nord=P['nord'], lower=P['lower'], upper=P['upper'],
-                                        maxiter=P['maxiter'], **P['kw'])
+                                        maxiter=P['maxiter'], **kw)
             res['sset'] = sset
             res['outmask'] = np.asarray(outmask)
         except Exception as ex:
@@ -563,8 +655,11 @@ def build_trace(P, perm, res, ref):
 
 def describe_problem(P, perm, form=None):
     kind = 'sorted' if perm == sorted(perm) else ('reversed' if perm == sorted(perm, reverse=True) else 'shuffled')
+    kwtxt = {a: ('<%d values %g..%g>' % (len(v), v[0], v[-1]) if isinstance(v, list) else v) for a, v in P['kw'].items()}
+    if P.get('holes') or P.get('ghosts'):
+        kwtxt['empty segments'] = P.get('holes', 0) + P.get('ghosts', 0)
     return 'n=%d nord=%d %s lower=%s upper=%s maxiter=%d outliers=%d nonpositive-weights=%d order=%s%s' % (
-        P['X'].size, P['nord'], P['kw'], P['lower'], P['upper'], P['maxiter'], len(P['outliers']),
+        P['X'].size, P['nord'], kwtxt, P['lower'], P['upper'], P['maxiter'], len(P['outliers']),
         int((P['W'] <= 0).sum()), kind, (' x.dtype=' + form) if form else '')
 
 
@@ -740,7 +835,8 @@ def run_traces(ctx, bsp):
     done = 0
     for k in range(nprob):
         P = (make_pixel_problem(rng, k) if k % 10 in (2, 5, 8) else
-             make_sparse_problem(rng, k) if k % 10 in (1, 3, 6, 9) else make_problem(rng, k, ctx.quick))
+             make_hole_problem(rng, k) if k % 10 in (3, 7) else
+             make_sparse_problem(rng, k) if k % 10 in (1, 6, 9) else make_problem(rng, k, ctx.quick))
         ref = refperm = None
         for j, perm in enumerate(caller_orders(rng, P['X'].size)):
             form = P['forms'][j] if 'forms' in P else 'float64'
